@@ -2,6 +2,7 @@ import PcfgVerif.Properties.OmenTrainCore
 import PcfgVerif.Lemmas.OmenFilesD
 import PcfgVerif.Lemmas.OmenCountLemmas
 import PcfgVerif.Lemmas.OmenScorerFilesLemmas
+import PcfgVerif.Lemmas.OmenAlphabetLemmas
 /-!
 # C11 — trainer, scorer and guesser agree on every string's OMEN level
 
@@ -80,6 +81,15 @@ theorem C11_trained_tables_wf (lvl : Nat → Nat → Nat → Nat) (alphabetSize 
     (trainTTables lvl alphabetSize ngram minLength maxLength maxLevel pws).WF :=
   let g := trainTTables_good lvl alphabetSize ngram minLength maxLength maxLevel hn hl pws
   ⟨g.ngram_ge, g.keys_nodup, g.key_len, g.letters_nodup, g.ip_levels, g.cp_levels, g.ln_levels⟩
+
+/-- the alphabet the first pass learns ("for every ... alphabet size"): at most `size` letters, none twice, each one a letter of a
+password at least `ngram` long, taken from the front of the stable sort by decreasing count -/
+theorem C11_alphabet (size ngram : Nat) (pws : List Str) :
+    (alphabetOf size ngram pws).length ≤ size ∧ (alphabetOf size ngram pws).Nodup ∧
+    (∀ c ∈ alphabetOf size ngram pws, c ∈ (alphabetCounts ngram pws).map (·.1)) ∧
+    alphabetOf size ngram pws =
+      (((alphabetCounts ngram pws).mergeSort fun a b => decide (a.2 ≥ b.2)).take size).map (·.1) :=
+  alphabetOf_spec size ngram pws
 
 /-- **C11 from the training list to the guess**, no hypothesis about tables or files left: for every training list and every
 string, the scorer's `parse` on the dictionaries it loads from the trainer's files returns the trainer's level, the guesser's loader accepts the files, and the generator run over the loaded
